@@ -153,8 +153,36 @@ Definition check_bits (p : params) : option params :=
 Definition set_level (p : params) (l : option Z) : params :=
   mkP (p_enc p) (p_comp p) l (p_bits p) (p_tid p) (p_reconnect p) (p_tgid p) (p_tgcount p) (p_tgidx p).
 
-(* None = error; Some p' = nil, with the receiver as Validate leaves it (default level filled in) *)
+(* validateUTF8: enc, comp, tid, tgid must be valid UTF-8 (called first by Validate and by
+   MarshalKeyValues) *)
+Definition text_utf8 (p : params) : bool :=
+  utf8_valid (p_enc p) && utf8_valid (p_comp p) && utf8_valid (p_tid p) && utf8_valid (p_tgid p).
+
+Definition level_out (p : params) : bool :=
+  match p_level p with Some l => (l <? 0)%Z || (9 <? l)%Z | None => false end.
+Definition bits_out (p : params) : bool :=
+  match p_bits p with Some w => (w <? 0)%Z || (32 <? w)%Z | None => false end.
+
+(* Validate AS IT IS NOW (fixes 20ec58b of F27 and 1a00ab3 of F26): UTF-8 first, then the encoding,
+   then level and window bits whenever present - whether or not a type is named -, then the type;
+   the default level is filled in only when a type is named.
+   None = error; Some p' = nil, with the receiver as Validate leaves it. *)
 Definition validate (p : params) : option params :=
+  if negb (text_utf8 p) then None
+  else if negb (is_nil (p_enc p) || bytes_eqb (p_enc p) enc_json || bytes_eqb (p_enc p) enc_proto) then None
+  else if level_out p then None
+  else if bits_out p then None
+  else if is_nil (p_comp p) then Some p
+  else if bytes_eqb (p_comp p) comp_pm || bytes_eqb (p_comp p) comp_cto then
+    match p_level p with
+    | Some _ => Some p
+    | None => Some (set_level p (Some 6%Z))
+    end
+  else None.
+
+(* the FORMER Validate (before those fixes): no look at the text; level and window bits looked at
+   only under a named type.  Kept only for the lemmas that record findings F26 and F27. *)
+Definition validate_former (p : params) : option params :=
   if negb (is_nil (p_enc p) || bytes_eqb (p_enc p) enc_json || bytes_eqb (p_enc p) enc_proto) then None
   else if is_nil (p_comp p) then Some p
   else if bytes_eqb (p_comp p) comp_pm || bytes_eqb (p_comp p) comp_cto then
@@ -205,7 +233,9 @@ Definition kvs := list (bytes * bytes).
 (* json.Marshal of the struct (omitempty: "" / nil pointer / false / 0 are left out; numbers
    quoted by ,string), json.Unmarshal into map[string]any, fmt.Sprintf("%v") of each value.
    Listed in struct order; the Go result is a map. *)
-Definition marshal_kv (p : params) : kvs :=
+(* [kv_pairs]: the pairs; [marshal_kv] below: MarshalKeyValues as it is now, which first refuses
+   text that is not UTF-8 (for UTF-8 text [sanitize] is the identity). *)
+Definition kv_pairs (p : params) : kvs :=
   (if is_nil (p_enc p) then [] else [(k_enc, sanitize (p_enc p))]) ++
   (if is_nil (p_comp p) then [] else [(k_comp, sanitize (p_comp p))]) ++
   (match p_level p with None => [] | Some z => [(k_clevel, print_int z)] end) ++
@@ -215,6 +245,11 @@ Definition marshal_kv (p : params) : kvs :=
   (if is_nil (p_tgid p) then [] else [(k_tgid, sanitize (p_tgid p))]) ++
   (if (p_tgcount p =? 0)%Z then [] else [(k_tgcount, print_int (p_tgcount p))]) ++
   (if (p_tgidx p =? 0)%Z then [] else [(k_tgidx, print_int (p_tgidx p))]).
+
+(* MarshalKeyValues AS IT IS NOW: None = error *)
+Definition marshal_kv (p : params) : option kvs := if text_utf8 p then Some (kv_pairs p) else None.
+(* the FORMER MarshalKeyValues never failed (non-UTF-8 bytes became U+FFFD): finding F26 *)
+Definition marshal_kv_former (p : params) : kvs := kv_pairs p.
 
 (* ---------- UnmarshalKeyValues ---------- *)
 
@@ -331,18 +366,23 @@ Definition kv_step (st : option params) (kv : bytes * bytes) : option params :=
 Definition bad_reconnect (kv : bytes * bytes) : bool :=
   bytes_eqb (fst kv) k_reconnect && negb (bytes_eqb (snd kv) b_true || bytes_eqb (snd kv) b_false).
 
-(* UnmarshalKeyValues into an existing receiver; None = error *)
-Definition unmarshal_kv_into (init : params) (l : kvs) : option params :=
+(* the FORMER UnmarshalKeyValues (no UTF-8 check: finding F26); None = error *)
+Definition unmarshal_kv_into_former (init : params) (l : kvs) : option params :=
   if existsb bad_reconnect l then None
   else fold_left kv_step (sort_kv l) (Some init).
+(* UnmarshalKeyValues AS IT IS NOW, into an existing receiver: any key or value that is not
+   UTF-8 is an error, before anything else *)
+Definition kv_text_ok (l : kvs) : bool := forallb (fun kv => utf8_valid (fst kv) && utf8_valid (snd kv)) l.
+Definition unmarshal_kv_into (init : params) (l : kvs) : option params :=
+  if negb (kv_text_ok l) then None else unmarshal_kv_into_former init l.
 Definition unmarshal_kv (l : kvs) : option params := unmarshal_kv_into p0 l.
 
 (* ---------- URL values (websocket and webtransport are the same text) ---------- *)
 
 Definition url_values := list (bytes * list bytes).
 
-Definition marshal_url (p : params) : url_values :=
-  map (fun kv => (fst kv, [snd kv])) (marshal_kv p).
+Definition url_of_kv (l : kvs) : url_values := map (fun kv => (fst kv, [snd kv])) l.
+Definition marshal_url (p : params) : option url_values := option_map url_of_kv (marshal_kv p).
 
 Definition url_entry (e : bytes * list bytes) : option (bytes * bytes) :=
   if is_nil (fst e) then None
@@ -373,19 +413,21 @@ Definition frame (kv : bytes * bytes) : bytes :=
 (* the framing of a list of pairs (lengths wrap at 16 bits, as uint16(len) does) *)
 Definition frames (l : kvs) : bytes := concat (map frame l).
 
-(* quic Marshal AS IT IS NOW (fix d2e00d7 of F25): the pairs written in the order given (Go: map
-   iteration order); an error (None) when a key or a value does not fit the 16-bit length prefix *)
+(* quic Marshal AS IT IS NOW: MarshalKeyValues (error passed on), then the pairs written in the
+   order given (Go: map iteration order); an error (None) when a key or a value does not fit the
+   16-bit length prefix (fix d2e00d7 of F25) *)
 Definition fits16 (kv : bytes * bytes) : bool :=
   (N.of_nat (length (fst kv)) <? 65536) && (N.of_nat (length (snd kv)) <? 65536).
 Definition marshal_bin_checked (order : kvs -> kvs) (p : params) : option bytes :=
-  let l := order (marshal_kv p) in if forallb fits16 l then Some (frames l) else None.
+  match marshal_kv p with
+  | None => None
+  | Some kv => let l := order kv in if forallb fits16 l then Some (frames l) else None
+  end.
 Definition marshal_bin := marshal_bin_checked.
 
-(* the FORMER writer (before the fix): no check, uint16(len) wraps.  Kept only for the lemma that
-   records finding F25. *)
-Definition marshal_bin_former (order : kvs -> kvs) (p : params) : bytes := frames (order (marshal_kv p)).
-(* which writer the correspondence expects: true = the code as it is now *)
-Definition bin_writer_checks : bool := true.
+(* the FORMER writer (before the fixes): no check at all, uint16(len) wraps.  Kept only for the
+   lemma that records finding F25. *)
+Definition marshal_bin_former (order : kvs -> kvs) (p : params) : bytes := frames (order (kv_pairs p)).
 
 Definition has_key (k : bytes) (l : kvs) : bool := existsb (fun kv => bytes_eqb (fst kv) k) l.
 
@@ -540,23 +582,31 @@ Fixpoint match_frames (fuel : nat) (b : bytes) (l : kvs) : bool :=
   end.
 Definition framing_of (l : kvs) (b : bytes) : bool := match_frames (length l) b l.
 
+Definition is_some_o (o : option params) : bool := match o with Some _ => true | None => false end.
 Definition neg_corr (c : neg_case) : bool :=
   match nc_in c, nc_obs c with
   | InParams p b1 b2, ObsParams vld kv uws uwt bin rkv rws rwt rbin pbin rperm cfg1 cfg2 merr =>
-      let mkv := marshal_kv p in
-      (* no Marshal of the code as it is can fail; the repaired quic writer refuses long texts *)
-      let bin_refused := bin_writer_checks && negb (forallb fits16 mkv) in
-      (merr =? (if bin_refused then 8 else 0))
-      && oparams_eqb (validate p) vld
-      && kvs_eqb (sort_kv mkv) kv
-      && url_eqb (sort_by (marshal_url p)) uws && url_eqb (sort_by (marshal_url p)) uwt
-      && oparams_eqb (unmarshal_kv mkv) rkv
-      && oparams_eqb (unmarshal_url (marshal_url p)) rws
-      && oparams_eqb (unmarshal_url (marshal_url p)) rwt
-      && (if bin_refused then is_nil bin && negb (match rbin with Some _ => true | None => false end)
-          else framing_of mkv bin && oparams_eqb (unmarshal_bin bin) rbin)
-      && oparams_eqb (unmarshal_bin pbin) rperm
+      oparams_eqb (validate p) vld
       && cconfig_eqb (compress_config p b1) cfg1 && cconfig_eqb (compress_config p b2) cfg2
+      && match marshal_kv p with
+         | None =>
+             (* MarshalKeyValues fails, and with it both URL writers and the quic writer; the
+                harness records empty outputs and no round trip *)
+             (merr =? 15) && is_nil kv && is_nil uws && is_nil uwt && is_nil bin && is_nil pbin
+             && negb (is_some_o rkv) && negb (is_some_o rws) && negb (is_some_o rwt)
+             && negb (is_some_o rbin) && negb (is_some_o rperm)
+         | Some mkv =>
+             let bin_refused := negb (forallb fits16 mkv) in
+             (merr =? (if bin_refused then 8 else 0))
+             && kvs_eqb (sort_kv mkv) kv
+             && url_eqb (sort_by (url_of_kv mkv)) uws && url_eqb (sort_by (url_of_kv mkv)) uwt
+             && oparams_eqb (unmarshal_kv mkv) rkv
+             && oparams_eqb (unmarshal_url (url_of_kv mkv)) rws
+             && oparams_eqb (unmarshal_url (url_of_kv mkv)) rwt
+             && (if bin_refused then is_nil bin && negb (is_some_o rbin)
+                 else framing_of mkv bin && oparams_eqb (unmarshal_bin bin) rbin)
+             && oparams_eqb (unmarshal_bin pbin) rperm
+         end
   | InKV init l, ObsKV rkv rws rwt =>
       oparams_eqb (unmarshal_kv_into init l) rkv
       && oparams_eqb (unmarshal_url_into init (singletons l)) rws
